@@ -76,3 +76,14 @@ Lemma concrete_example :
   resolve_concrete [ex_c1; ex_c2] call3 [[0; 1]; [5]; [5]] = RErr /\
   forallb (sig_guard_b 1) (map (osig_of call2) [ex_c1; ex_c2]) = false.
 Proof. repeat split; vm_compute; reflexivity. Qed.
+
+(* a star call site f( *s ) with s : tuple[T, ...]: the element type is argument 0, bound to x (position ARGS,
+   not decomposable) and, in the second overload, also collected by its star-args parameter *)
+Definition callstar : actuals := mkActuals [] true [] false false.
+
+Lemma concrete_star_example :
+  resolve_concrete [ex_c1; ex_c2] callstar [[1]] = RTypes [1] /\
+  resolve_concrete [ex_c1; ex_c2] callstar [[0]] = RTypes [0] /\
+  resolve_concrete [ex_c1; ex_c2] callstar [[0; 1]] = RErr /\           (* a union element type is never decomposed *)
+  forallb (sig_guard_b 0) (map (osig_of callstar) [ex_c1; ex_c2]) = false.
+Proof. repeat split; vm_compute; reflexivity. Qed.
